@@ -2,6 +2,7 @@ package main
 
 import (
 	"fmt"
+	"go/ast"
 	"go/types"
 	"strings"
 
@@ -20,6 +21,8 @@ func init() {
 func runC06(c *Ctx) {
 	c.Rule("R6.1", 3, "the table comes from the LALR(1) builder with the specification's grammar and precedences")
 	c.Rule("R6.2", 6, "a conflict error reaches the exit status link by link")
+	c.Rule("R6.3", 6, "the grammar handed to the builder is assembled from everything the symbol table holds, with the documented start symbol")
+	checkSpecAssembly(c)
 
 	sp := c.Pkg("internal/ebnf/parser/spec")
 	gp := c.Pkg("internal/generate/golang")
@@ -190,4 +193,184 @@ func keysOf(m map[string]bool) []string {
 		out = append(out, k[strings.LastIndex(k, "/")+1:])
 	}
 	return out
+}
+
+// checkSpecAssembly: R6.3. The grammar of the specification is built in the final action of spec.Parse from the symbol
+// table. The table parses the grammar's language only if nothing is filtered or swapped on the way.
+func checkSpecAssembly(c *Ctx) {
+	sp := c.Pkg("internal/ebnf/parser/spec")
+	if sp == nil {
+		c.Lost("R6.3", "package spec")
+		return
+	}
+	info := sp.TypesInfo
+	parse := FuncDecl(sp, "", "Parse")
+	if parse == nil {
+		c.Lost("R6.3", "spec.Parse")
+		return
+	}
+	c.Analysed(funcKey(sp, parse))
+	// the call that builds the context-free grammar: a dependency constructor returning the grammar type, with four arguments
+	var cfgCall *ast.CallExpr
+	var cfgVar types.Object
+	ast.Inspect(parse.Body, func(n ast.Node) bool {
+		as, ok := n.(*ast.AssignStmt)
+		if !ok || len(as.Rhs) != 1 || len(as.Lhs) != 1 {
+			return true
+		}
+		call, ok := ast.Unparen(as.Rhs[0]).(*ast.CallExpr)
+		if !ok || len(call.Args) != 4 {
+			return true
+		}
+		fo, _ := objOf(info, call.Fun).(*types.Func)
+		if fo == nil || fo.Pkg() == nil || fo.Pkg().Path() != depPath+"/grammar" {
+			return true
+		}
+		if _, n := namedTypeName(fo.Type().(*types.Signature).Results().At(0).Type()); n != "CFG" {
+			if pt, ok := fo.Type().(*types.Signature).Results().At(0).Type().(*types.Pointer); !ok {
+				return true
+			} else if _, n2 := namedTypeName(pt.Elem()); n2 != "CFG" {
+				return true
+			}
+		}
+		cfgCall = call
+		if id, ok := as.Lhs[0].(*ast.Ident); ok {
+			cfgVar = info.Defs[id]
+			if cfgVar == nil {
+				cfgVar = info.Uses[id]
+			}
+		}
+		return true
+	})
+	if cfgCall == nil {
+		c.Lost("R6.3", "the construction of the context-free grammar in spec.Parse")
+		return
+	}
+	// arguments 0..2: total accessors of the symbol table
+	want := []string{"Terminal", "NonTerminal", "Production"}
+	for i, w := range want {
+		call, ok := ast.Unparen(cfgCall.Args[i]).(*ast.CallExpr)
+		okArg, why := false, "the argument is not a call of a symbol-table accessor"
+		if ok {
+			if fo, ok := objOf(info, call.Fun).(*types.Func); ok && fo.Pkg() == sp.Types {
+				if fd := FuncDecl(sp, "SymbolTable", fo.Name()); fd != nil {
+					c.Analysed(funcKey(sp, fd))
+					okArg, why = totalAccessor(info, fd, w)
+				}
+			}
+		}
+		c.Check("R6.3", fmt.Sprintf("the grammar's %ss are all the %ss of the symbol table", strings.ToLower(w), strings.ToLower(w)), cfgCall.Args[i].Pos(), okArg,
+			why+": the table is built for a grammar that lacks part of what the specification says", "")
+	}
+	start, okStart := constStr(info, cfgCall.Args[3])
+	c.Check("R6.3", "the start symbol is the documented one (start)", cfgCall.Args[3].Pos(), okStart && start == "start", fmt.Sprintf("the start symbol handed to the grammar is %q", start))
+	// the returned Spec carries that grammar and the table's precedence list
+	var lit *ast.CompositeLit
+	ast.Inspect(parse.Body, func(n ast.Node) bool {
+		if cl, ok := n.(*ast.CompositeLit); ok {
+			if _, nme := namedTypeName(info.TypeOf(cl)); nme == "Spec" {
+				lit = cl
+			}
+		}
+		return true
+	})
+	if lit == nil {
+		c.Lost("R6.3", "the Spec value returned by spec.Parse")
+		return
+	}
+	fs, _ := compositeFields(lit)
+	gOK := false
+	if id, ok := ast.Unparen(fs["Grammar"]).(*ast.Ident); ok && info.Uses[id] == cfgVar && cfgVar != nil {
+		gOK = true
+	}
+	c.Check("R6.3", "the specification carries the grammar that was built and verified", lit.Pos(), gOK, "Spec.Grammar is not the grammar built from the symbol table")
+	pOK, pWhy := false, "Spec.Precedences is not the list the symbol table collected"
+	if id, ok := ast.Unparen(fs["Precedences"]).(*ast.Ident); ok {
+		// precedences := table.Precedences()
+		ast.Inspect(parse.Body, func(n ast.Node) bool {
+			as, ok := n.(*ast.AssignStmt)
+			if !ok || len(as.Lhs) != 1 || len(as.Rhs) != 1 {
+				return true
+			}
+			lid, ok := as.Lhs[0].(*ast.Ident)
+			if !ok || (info.Defs[lid] != info.Uses[id] && info.Uses[lid] != info.Uses[id]) {
+				return true
+			}
+			if call, ok := ast.Unparen(as.Rhs[0]).(*ast.CallExpr); ok {
+				if fo, ok := objOf(info, call.Fun).(*types.Func); ok && fo.Pkg() == sp.Types {
+					if fd := FuncDecl(sp, "SymbolTable", fo.Name()); fd != nil {
+						// the accessor returns a field unchanged
+						for _, st := range fd.Body.List {
+							if r, ok := st.(*ast.ReturnStmt); ok && len(r.Results) == 1 {
+								if _, isSel := ast.Unparen(r.Results[0]).(*ast.SelectorExpr); isSel {
+									pOK = true
+								} else {
+									pWhy = "the precedence accessor does not return the collected list as it is"
+								}
+							}
+						}
+					}
+				}
+			}
+			return true
+		})
+	}
+	c.Check("R6.3", "the specification carries the precedence levels as collected", lit.Pos(), pOK, pWhy)
+}
+
+// totalAccessor: the method ranges over a collection of the table and appends every element (its key) unconditionally to the
+// slice it returns; the element type is the dependency's grammar type named elem.
+func totalAccessor(info *types.Info, fd *ast.FuncDecl, elem string) (bool, string) {
+	fo := info.Defs[fd.Name].(*types.Func)
+	res := fo.Type().(*types.Signature).Results()
+	if res.Len() != 1 {
+		return false, "the accessor does not return one list"
+	}
+	sl, ok := res.At(0).Type().Underlying().(*types.Slice)
+	if !ok {
+		return false, "the accessor does not return a list"
+	}
+	et := sl.Elem()
+	if pt, ok := et.(*types.Pointer); ok {
+		et = pt.Elem()
+	}
+	if _, n := namedTypeName(et); n != elem {
+		return false, "the accessor returns " + types.TypeString(sl.Elem(), nil) + ", not the " + elem + "s"
+	}
+	var loop *ast.RangeStmt
+	nLoops := 0
+	for _, st := range fd.Body.List {
+		if rs, ok := st.(*ast.RangeStmt); ok {
+			loop = rs
+			nLoops++
+		}
+	}
+	if nLoops != 1 {
+		return false, fmt.Sprintf("the accessor has %d top-level loops", nLoops)
+	}
+	if len(loop.Body.List) != 1 {
+		return false, "the loop does more than append the element (a filter or an early exit drops symbols)"
+	}
+	as, ok := loop.Body.List[0].(*ast.AssignStmt)
+	if !ok || len(as.Rhs) != 1 {
+		return false, "the loop body is not an append"
+	}
+	call, ok := ast.Unparen(as.Rhs[0]).(*ast.CallExpr)
+	if !ok || len(call.Args) != 2 {
+		return false, "the loop body is not an append"
+	}
+	if id, ok := call.Fun.(*ast.Ident); !ok || id.Name != "append" {
+		return false, "the loop body is not an append"
+	}
+	key, _ := loop.Key.(*ast.Ident)
+	arg, _ := ast.Unparen(call.Args[1]).(*ast.Ident)
+	if key == nil || arg == nil || info.Uses[arg] != info.Defs[key] {
+		return false, "what is appended is not the element of the iteration"
+	}
+	// the appended-to slice is what is returned
+	last, ok := fd.Body.List[len(fd.Body.List)-1].(*ast.ReturnStmt)
+	if !ok || len(last.Results) != 1 || types.ExprString(last.Results[0]) != types.ExprString(as.Lhs[0]) {
+		return false, "the accessor does not return the list it filled"
+	}
+	return true, ""
 }
